@@ -516,6 +516,14 @@ func main() {
 				}
 			}
 		}
+		// runs of zero-length writes between data: a Write of no bytes must neither emit anything the
+		// receiver counts as a useless record nor disturb what follows, however many there are
+		for _, kind := range kinds {
+			for _, k := range []int{1, 2, 16, 17, 18, 48} {
+				emit(fmt.Sprintf("ph=loop kind=%s dyn=1 bs=0 ps=0 w=3,%s,5 seed=%d close=1 seg=512 bufs=4096", kind, rep(0, k), rng.Intn(256)))
+				emit(fmt.Sprintf("ph=loop kind=%s dyn=0 bs=0 ps=0 w=%s,7 seed=%d close=0 seg=7,512,1 bufs=1,7", kind, rep(0, k), rng.Intn(256)))
+			}
+		}
 		// the ramp must never overshoot the plaintext limit: k tiny writes, then one write that
 		// still has more than a full record outstanding at every step of the ramp; and bulk
 		// writes that run through the whole ramp before the 128 KiB boost
@@ -641,6 +649,12 @@ func main() {
 				e2e(su, m, 1, "0,1,300,0,1500,7", 1, "512", "7")
 				e2e(su, m, 1, "0,1,300,0,1500,7", 0, "1", "16384")
 				e2e(su, m, 0, "9,40,3", 1, "60,1,512", "1")
+			}
+		}
+		// runs of zero-length writes on a real connection
+		for _, su := range names {
+			for _, k := range []int{1, 16, 17, 48} {
+				e2e(su, plain[0], 1, fmt.Sprintf("3,%s,5", rep(0, k)), 1, "512", "4096")
 			}
 		}
 		// right after the handshake: bulk writes through the whole ramp, and k tiny writes followed
